@@ -566,3 +566,11 @@ def replay(spec):
         if any(not np.array_equal(a, b) or np.asarray(a).dtype != np.asarray(b).dtype for a, b in zip(ai, keep)):
             fails.append('%s modifies its argument' % nm)
     return {'violated': bool(fails), 'detail': fails}
+
+
+RIM = {'lat': -84.6, 'lon': 150.0, 'alt': 15000.0, 'VN': 250.0, 'VE': -200.0, 'VD': 5.0, 'roll': 120.0, 'pitch': -60.0, 'heading': -170.0}
+
+
+def FALLBACK(tier):
+    """numeric oracle specs put to the compiled code when the symbolic run is inconclusive (main.py)"""
+    return [{'check': 'geo', 'point': p} for p in ({}, RIM, {'lat': 0.3, 'lon': -179.9, 'alt': -200.0})] + [{'check': 'ecef', 'point': {'lon': 30.0, 'rho': 4e6, 'z': -3e6}}, {'check': 'olson', 'point': {}}]
